@@ -380,7 +380,12 @@ CLAUSES = {
 # ---------------------------------------------------------------------------------------
 def _roots(ctx):
     if ctx.quick:
-        return P.canon_names(2)
+        # every order of up to two accidentals (mixed ones like C#b are names too) + triple runs
+        out = []
+        for n in P.canon_names(2) + P.names(2) + ["C###", "Fbbb", "B#b#"]:
+            if n not in out:
+                out.append(n)
+        return out
     out = []
     for n in P.names(4) + P.canon_names(7):
         if n not in out:
